@@ -39,8 +39,10 @@ def main():
         dg.add(t)
     for t in case["shapes"]:
         sg.add(t)
-    for p, ns in case["prefixes"]:
+    dpfx, spfx = case["prefixes"] if isinstance(case["prefixes"], tuple) else (case["prefixes"], case["prefixes"])
+    for p, ns in dpfx:
         dg.bind(p, ns, override=True, replace=True)
+    for p, ns in spfx:
         sg.bind(p, ns, override=True, replace=True)
     try:
         if case.get("api") == "rules":
